@@ -18,6 +18,9 @@ CLAIMS = {
  "C04": dict(engine="coq-layer-g", tech="Coq proof of equality with a transcription of the published equations, over definitions regenerated from the code",
    text="Full on the unclipped region: every rate function, steady state, time constant, current and default of HH / Pospischil channels / IonotropicSynapse is proved equal (in R) to Spec/Published.v, with explicit hypotheses where save_exp clips or the singularity guard is active; renamed mechanisms are proved identical. CaT tau_u beyond the clip is a machine-checked refutation (known finding F15).",
    note=G_NOTE + " Spec/Published.v is my transcription of the cited papers (not checkable offline). Interval (PrimFloat/Uint63 axioms) is used for the F15 witness only.", ref="DESIGN.md §5 C04"),
+ "C11": dict(engine="coq-layer-m", tech="Coq proof about an executable model of view selection + exact correspondence with the implementation on enumerated selection chains",
+   text="Full for the model: Coq theorems (axiom-free) that one selection keeps exactly the rows of the current view whose local (dense rank within the parent, relative to the current view) or global index is requested, that chains only narrow, that synapses are in view iff both ends are, that local indices are strictly monotone dense ranks (0..k-1) and equal the global ones on a full module. The implementation is compared exactly (rows, edges, local index columns, acceptance/rejection) with the model on random chains over all index forms and both scopes on irregular fixtures; [] and iteration vs method form, loc(), and confinement of writes through views are direct predicates.",
+   note=M_NOTE, ref="DESIGN.md §5 C11"),
  "C14": dict(engine="coq-layer-g", tech="Coq proof over definitions regenerated from the code (jaxpr translation) + direct predicate on the implementation",
    text="Full: for every gate of every built-in channel, Coq theorems over the reals (all v, all dt>0, all parameters; taumax>0) state update_states(init_state(v),dt,v)=init_state(v) about definitions regenerated from /repo on every run; renamed channels are proved identical. Module.init_states' row selection is tied by correspondence on sampled modules with partial insertions.",
    note=G_NOTE, ref="DESIGN.md §5 C14"),
